@@ -628,6 +628,8 @@ class FSA:
         new_automaton = FSA(start_vertices=self.start_vertices)
         while(len(to_visit) > 0):
             v = to_visit.popleft()
+            if visited[v]:
+                continue
             visited[v] = True
             new_automaton.add_vertices([v])
 
